@@ -358,6 +358,19 @@ def _est_job(arg):
             warnings.simplefilter("ignore")
             obj.predict(h.PROBES)
         calls.append({"call": "predict on the probe points (before the first training call)"})
+    # one quarter of the plain histories that start with fit: the object has a PAST with another number of features
+    # (it was fitted before on the first data set plus a constant feature column); the first fit of the history
+    # must forget that, like everything else
+    first_train = next((st_ for st_ in hist["steps"] if st_["op"] in ("Fit", "PartialFit")), None)
+    if (cfg["kind"] == "plain" and not cfg.get("pretrained") and tabseed % 4 == 3 and first_train is not None
+            and first_train["op"] == "Fit" and len(first_train["d"])):
+        pX, py, pw = tab.data(mapd(first_train["d"]), task, n_annot)
+        try:
+            h.train(obj, "Fit", np.hstack([pX, np.ones((len(pX), 1))]), py, pw, False)
+            calls.append({"call": "fit (before the history) on the first data set with an additional constant feature"})
+        except Exception:
+            pass
+
     for si, step in enumerate(hist["steps"]):
         op = step["op"]
         # plain estimators: the data sets that contain sample 4 are always passed WITHOUT sample weights although
